@@ -179,11 +179,12 @@ def main(argv):
             if v['key'].startswith('inconclusive:'):
                 inconclusive.append('%s: %s' % (j['name'], v['key']))
                 continue
-            if j.get('abort_is_diag') and v['key'].startswith('abort:'):
-                # assertion of library code on deliberately corrupt input:
-                # not an out-of-bounds access, listed as a diagnostic
+            if j.get('abort_is_diag') and v['key'].startswith(('abort:', 'hang:')):
+                # assertion of library code, or CPU budget exhausted (loops
+                # bounded by 32-bit syntax elements), on deliberately corrupt
+                # input: not an out-of-bounds access, listed as a diagnostic
                 e = diag_by_key.setdefault(v['key'], dict(
-                    count=0, detail='assertion abort on corrupt input (job %s, '
+                    count=0, detail='assertion abort / CPU budget overrun on corrupt input (job %s, '
                     'case seed %s)' % (j['name'], v.get('case_seed'))))
                 e['count'] += 1
                 continue
